@@ -14,6 +14,8 @@ import (
 
 	"github.com/aws/aws-sdk-go-v2/aws"
 	"github.com/aws/aws-sdk-go-v2/service/dynamodb"
+	v2types "github.com/aws/aws-sdk-go-v2/service/dynamodb/types"
+	v2 "github.com/truora/minidyn/aws-v2/client"
 	"github.com/aws/smithy-go"
 )
 
@@ -71,6 +73,24 @@ func TestC06PathIntoRootScalarIsMissing(t *testing.T) {
 		r, err, c := match(e, item, map[string]*types.Item{":v": s("x")}, nil)
 		if c != nil || err != nil || !r {
 			t.Errorf("%q: res=%v err=%v crash=%v, want true", e, r, err, c)
+		}
+	}
+}
+
+// KF-C16-key-condition-shape: Query accepts conditions that are no key conditions.
+func TestC16KeyConditionShape(t *testing.T) {
+	ctx := context.Background()
+	c := v2.NewClient()
+	if err := v2.AddTable(ctx, c, "tbl", "h", "r"); err != nil {
+		t.Fatal(err)
+	}
+	tbl := "tbl"
+	for _, kc := range []string{"h > :h", "h = :h OR r = :h", "h = :h AND v = :h", "h = :h AND r <> :h", "NOT h = :h", "h IN (:h)"} {
+		kc := kc
+		_, err := c.Query(ctx, &dynamodb.QueryInput{TableName: &tbl, KeyConditionExpression: &kc,
+			ExpressionAttributeValues: map[string]v2types.AttributeValue{":h": &v2types.AttributeValueMemberS{Value: "a"}}})
+		if err == nil {
+			t.Errorf("Query accepted the key condition %q", kc)
 		}
 	}
 }
